@@ -1,28 +1,31 @@
-(* C19 (curry part): statements only; proofs live in Proofs/CurryFacts.v *)
-From Coq Require Import ZArith List.
-From DM Require Import Gen.KCurry Model.Curry Proofs.CurryFacts.
+(* C19: curry, map_, filter_, setcol -- statements only; proofs live in Proofs/CurryFacts.v and
+   Proofs/FunctionalFacts.v *)
+From Coq Require Import ZArith NArith List Bool String Sorted.
+From DM Require Import Base.PyVal Spec.Nf Spec.Table Spec.Functional Gen.KCurry Gen.KFunctional
+                       Model.Curry Model.Functional Proofs.CurryFacts Proofs.FunctionalFacts.
 Import ListNotations.
 
+(* ---------------------------------------------------------------- curry *)
 Theorem C19_curry_any_grouping :
   forall (A R : Type) (f : list A -> R) (n : nat) (chunks : list (list A)),
-    Forall (fun l => l <> []) chunks -> length (concat chunks) = n -> (0 < n)%nat ->
-    run A R f (curry A n) chunks = Val (f (concat chunks)).
+    Forall (fun l => l <> []) chunks -> List.length (List.concat chunks) = n -> (0 < n)%nat ->
+    run A R f (curry A n) chunks = Val (f (List.concat chunks)).
 Proof. exact curry_any_grouping. Qed.
 Print Assumptions C19_curry_any_grouping.
 
 Theorem C19_curry_prefix_reusable :
   forall (A R : Type) (f : list A -> R) (n : nat) (pre : list (list A)),
-    Forall (fun l => l <> []) pre -> (length (concat pre) < n)%nat ->
+    Forall (fun l => l <> []) pre -> (List.length (List.concat pre) < n)%nat ->
     exists c, run A R f (curry A n) pre = Fn c /\
       forall cont, cont <> [] -> Forall (fun l => l <> []) cont ->
-        (length (concat pre) + length (concat cont) = n)%nat ->
-        run A R f c cont = Val (f (concat pre ++ concat cont)).
+        (List.length (List.concat pre) + List.length (List.concat cont) = n)%nat ->
+        run A R f c cont = Val (f (List.concat pre ++ List.concat cont)).
 Proof. exact curry_prefix_reusable. Qed.
 Print Assumptions C19_curry_prefix_reusable.
 
 Theorem C19_curry_no_early_call :
   forall (A R : Type) (f : list A -> R) (n : nat) (pre : list (list A)),
-    Forall (fun l => l <> []) pre -> (length (concat pre) < n)%nat ->
+    Forall (fun l => l <> []) pre -> (List.length (List.concat pre) < n)%nat ->
     forall r, run A R f (curry A n) pre <> Val r.
 Proof. exact curry_no_early_call. Qed.
 Print Assumptions C19_curry_no_early_call.
@@ -30,4 +33,181 @@ Print Assumptions C19_curry_no_early_call.
 (* non-vacuity: a concrete arity-3 grouping *)
 Example C19_example :
   run nat (list nat) (fun l => l) (curry nat 3) [[1;2];[3]]%nat = Val [1;2;3]%nat.
+Proof. vm_compute. reflexivity. Qed.
+
+(* ---------------------------------------------------------------- map_, filter_, setcol
+   L1 (Model/Functional.v, on the scripts regenerated from functional.py, _datamatrix.py, _row.py,
+   _basecolumn.py) computes the L0 spec (Spec/Functional.v) for EVERY well-formed table and EVERY
+   user function f (a total function on rows / cells: its purity is the assumption).  lwf t: the
+   row count equals the number of row ids, the row ids are distinct, column names are distinct and
+   every column is as long as the table (the part of inv_b of C01 that these functions rely on). *)
+
+(* map_(f, dm): the copy dm[:], then per row the write-back of every item of the updated row dict
+   through Row.__setitem__, equals "every row is replaced by the row updated with f" *)
+Theorem C19_map_dm_refines :
+  forall (f : row -> upd) (t : ltab), lwf t -> l_map_dm f t = lift (l_ids t) true (map_dm f (l_tab t)).
+Proof. exact map_dm_refines. Qed.
+Print Assumptions C19_map_dm_refines.
+
+(* guards and dispatch of map_: not callable / neither column nor DataMatrix -> TypeError; a column
+   is mapped cell by cell; a DataMatrix row by row *)
+Theorem C19_map_dispatch :
+  forall (g : val -> pyv) (f : row -> upd),
+  (forall o, l_map false g f o = Raise TypeError) /\
+  l_map true g f OOther = Raise TypeError /\
+  (forall t nm c, l_map true g f (OCol t nm c) = bind (map_col g c) (fun r => Ok (RCol r))) /\
+  (forall t, lwf t -> l_map true g f (ODm t) = bind (lift (l_ids t) true (map_dm f (l_tab t))) (fun r => Ok (RTab r))).
+Proof. exact map_dispatch. Qed.
+Print Assumptions C19_map_dispatch.
+
+(* map_ keeps the row count; the existing columns keep their names, types, positions and lengths
+   (so rows stay rows, in source order); new keys only append MixedColumns as long as the table *)
+Theorem C19_map_dm_shape :
+  forall (f : row -> upd) (T T' : tab), map_dm f T = Ok T' -> extends T T' /\ tdflt T' = KMixed.
+Proof. exact map_dm_shape. Qed.
+Print Assumptions C19_map_dm_shape.
+
+(* what the spec of map_ says, cell by cell, when f returns no new keys: cell j of every column is the
+   normal form (of the column's type) of that key in the SOURCE row j updated with f of that row *)
+Theorem C19_map_dm_rows_updated :
+  forall (f : row -> upd) (T T' : tab),
+  twf T -> closed f T -> map_dm f T = Ok T' ->
+  tlen T' = tlen T /\ tab_names T' = tab_names T /\
+  forall n c, find_col n (tcols T) = Some c ->
+    exists c', find_col n (tcols T') = Some c' /\ ckind c' = ckind c /\ List.length (ccells c') = List.length (ccells c) /\
+      forall j, (j < tlen T)%nat -> exists v, lookup n (upd_row f T j) = Some v /\ nf (ckind c) v = Ok (cell_at j c').
+Proof. exact map_dm_closed. Qed.
+Print Assumptions C19_map_dm_rows_updated.
+
+(* filter_(f, dm) / filter_(g, col): the row ids of the rows that pass + _selectrowid (cells fetched BY
+   ID through the Index position dict) equals the positional selection of exactly those rows *)
+Theorem C19_filter_dispatch :
+  forall (g : val -> bool) (f : row -> bool),
+  (forall o isf na, l_filter false isf na g f o = Raise TypeError) /\
+  (forall isf na, l_filter true isf na g f OOther = Raise TypeError) /\
+  (forall t n c, lwf t -> find_col n (tcols (l_tab t)) = Some c ->
+     l_filter true true 1%Z g f (OCol t (Some n) c) = Ok (RCol (filter_col g c))) /\
+  (forall t, lwf t ->
+     l_filter true true 1%Z g f (ODm t)
+     = Ok (RTab (mk (map (fun j => nth j (l_ids t) 0%N) (kept_rows f (l_tab t))) true (filter_dm f (l_tab t))))).
+Proof. exact filter_dispatch. Qed.
+Print Assumptions C19_filter_dispatch.
+
+(* what the spec of filter_ says: exactly the rows with f true, ascending positions (source order),
+   every result column a subsequence of its source column *)
+Theorem C19_filter_dm_law :
+  forall (f : row -> bool) (T : tab),
+  (forall j, In j (kept_rows f T) <-> (j < tlen T)%nat /\ f (read_row T j) = true) /\
+  StronglySorted lt (kept_rows f T) /\
+  tlen (filter_dm f T) = List.length (kept_rows f T) /\
+  tcols (filter_dm f T) = map (select_pos (kept_rows f T)) (tcols T) /\
+  tab_names (filter_dm f T) = tab_names T /\
+  (forall c, In c (tcols T) -> List.length (ccells c) = tlen T ->
+             subseq (ccells (select_pos (kept_rows f T) c)) (ccells c)).
+Proof. exact filter_dm_law. Qed.
+Print Assumptions C19_filter_dm_law.
+
+Theorem C19_filter_col_law :
+  forall (g : val -> bool) (c : col),
+  subseq (ccells (filter_col g c)) (ccells c) /\
+  (forall x, In x (ccells (filter_col g c)) <-> In x (ccells c) /\ g x = true) /\
+  cname (filter_col g c) = cname c /\ ckind (filter_col g c) = ckind c.
+Proof. exact filter_col_law. Qed.
+Print Assumptions C19_filter_col_law.
+
+(* setcol: guards, copy, DataMatrix._set_col on the copy = the assignment dm[name] = value on a
+   derived table.  The copy is derived, so a NEW column gets the MixedColumn default: with a table
+   whose default_col_type is MixedColumn this is exactly `dm[name] = value` (second statement) *)
+Theorem C19_setcol_refines :
+  forall (t : ltab) (n : string) (v : cvalue),
+    lwf t -> l_setcol true true t n v = lift (l_ids t) true (assign (derived (l_tab t)) n v).
+Proof. exact setcol_refines. Qed.
+Print Assumptions C19_setcol_refines.
+
+Theorem C19_setcol_refines_default_mixed :
+  forall (t : ltab) (n : string) (v : cvalue),
+    lwf t -> tdflt (l_tab t) = KMixed -> l_setcol true true t n v = lift (l_ids t) true (setcol (l_tab t) n v).
+Proof. exact setcol_refines_default_mixed. Qed.
+Print Assumptions C19_setcol_refines_default_mixed.
+
+Theorem C19_setcol_guards :
+  forall (t : ltab) (n : string) (v : cvalue) (owner : bool),
+  l_setcol false owner t n v = Raise TypeError /\
+  (forall k cells, l_setcol true false t n (CVCol k cells) = Raise PlainException).
+Proof. exact setcol_guards. Qed.
+Print Assumptions C19_setcol_guards.
+
+(* setcol changes only that column: row count, every other name and its column are as before; the
+   named column is what the assignment stores *)
+Theorem C19_setcol_law :
+  forall (T : tab) (n : string) (v : cvalue) (T' : tab),
+  setcol T n v = Ok T' ->
+  tlen T' = tlen T /\
+  (forall m, m <> n -> find_col m (tcols T') = find_col m (tcols T)) /\
+  tab_names T' = (if has_col n (tcols T) then tab_names T else tab_names T ++ [n]) /\
+  (exists c, find_col n (tcols T') = Some c /\ cname c = n /\
+     match v with
+     | CVType k => ckind c = k /\ ccells c = repeat (default_cell k) (tlen T)
+     | CVCol k cells => ckind c = k /\ coerce_all k (map pyv_of_val cells) = Ok (ccells c)
+     | CVScalar x => ckind c = kind_for T n /\ rhs_cells (kind_for T n) (tlen T) (RScalar x) = Ok (ccells c)
+     | CVSeq xs => ckind c = kind_for T n /\ rhs_cells (kind_for T n) (tlen T) (RSeq xs) = Ok (ccells c)
+     end).
+Proof. exact setcol_law. Qed.
+Print Assumptions C19_setcol_law.
+
+(* a column of the same table arrives with its type and its cells *)
+Theorem C19_setcol_column_law :
+  forall (T : tab) (n : string) (c : col),
+  col_normal c -> List.length (ccells c) = tlen T ->
+  setcol T n (CVCol (ckind c) (ccells c))
+  = Ok (with_cols T (put {| cname := n; ckind := ckind c; ccells := ccells c |} (tcols T))).
+Proof. exact setcol_column_law. Qed.
+Print Assumptions C19_setcol_column_law.
+
+(* purity in the by-value model: the functions allocate their result in the heap of tables and every
+   table that existed before is still what it was (aliasing of Python objects is judged by the audits
+   of the harness, not by this theorem) *)
+Theorem C19_heap_frame :
+  forall (h : heap) (i : nat),
+  (forall f k t, nth_error h k = Some t -> nth_error (fst (h_map_dm f h i)) k = Some t) /\
+  (forall f k t, nth_error h k = Some t -> nth_error (fst (h_filter_dm f h i)) k = Some t) /\
+  (forall n v k t, nth_error h k = Some t -> nth_error (fst (h_setcol h i n v)) k = Some t).
+Proof. exact heap_frame. Qed.
+Print Assumptions C19_heap_frame.
+
+Open Scope string_scope.
+(* non-vacuity: a well-formed reordered table; map_ with a new key, a filter and a setcol on it *)
+Definition ex_t : ltab :=
+  {| l_ids := [4; 1; 0]%N; l_sorted := false;
+     l_tab := {| tlen := 3; tdflt := KMixed;
+                 tcols := [ {| cname := "u"; ckind := KMixed; ccells := [VInt 4; VInt 1; VInt 0] |};
+                            {| cname := "i"; ckind := KInt; ccells := [VInt 0; VInt 2; VInt (-2)] |} ] |} |}.
+Example C19_ex_wf : lwf ex_t.
+Proof.
+  repeat split.
+  - repeat constructor; cbn; intuition discriminate.
+  - repeat constructor; cbn; intuition discriminate.
+  - repeat constructor.
+Qed.
+Example C19_ex_map :
+  l_map_dm (fun r => match lookup "i" r with Some (VInt z) => [("i", PInt (z + 1)); ("z", PStr "q" None None)] | _ => [] end) ex_t
+  = Ok {| l_ids := [4; 1; 0]%N; l_sorted := true;
+          l_tab := {| tlen := 3; tdflt := KMixed;
+                      tcols := [ {| cname := "u"; ckind := KMixed; ccells := [VInt 4; VInt 1; VInt 0] |};
+                                 {| cname := "i"; ckind := KInt; ccells := [VInt 1; VInt 3; VInt (-1)] |};
+                                 {| cname := "z"; ckind := KMixed; ccells := [VStr "q"; VStr "q"; VStr "q"] |} ] |} |}.
+Proof. vm_compute. reflexivity. Qed.
+Example C19_ex_filter :
+  l_filter_dm (fun r => match lookup "i" r with Some (VInt z) => (0 <=? z)%Z | _ => false end) ex_t
+  = Ok {| l_ids := [4; 1]%N; l_sorted := true;
+          l_tab := {| tlen := 2; tdflt := KMixed;
+                      tcols := [ {| cname := "u"; ckind := KMixed; ccells := [VInt 4; VInt 1] |};
+                                 {| cname := "i"; ckind := KInt; ccells := [VInt 0; VInt 2] |} ] |} |}.
+Proof. vm_compute. reflexivity. Qed.
+Example C19_ex_setcol :
+  l_setcol true true ex_t "i" (CVSeq [PFloat (FFin false 5 (-1)); PStr "3" (Some 3%Z) None; PBool true])
+  = Ok {| l_ids := [4; 1; 0]%N; l_sorted := true;
+          l_tab := {| tlen := 3; tdflt := KMixed;
+                      tcols := [ {| cname := "u"; ckind := KMixed; ccells := [VInt 4; VInt 1; VInt 0] |};
+                                 {| cname := "i"; ckind := KInt; ccells := [VInt 2; VInt 3; VInt 1] |} ] |} |}.
 Proof. vm_compute. reflexivity. Qed.
